@@ -46,7 +46,7 @@ try:
         res['tests'] = out.strip().split('\n')[0]
         res['tests_ok'] = rc == 0
     os.makedirs(vf)
-    sh('rsync -a --exclude .git --exclude evidence/replays --exclude .scratch /verif/ %s/' % vf)
+    sh('rsync -a --exclude .git --exclude evidence/replays --exclude .scratch %s/ %s/' % (os.environ.get('VS_SRC', '/verif'), vf))
     rc, out = sh('SPYNE_REPO=%s ./check %s --tier quick' % (wt, prop), cwd=vf, timeout=3600)
     lines = [l for l in out.split('\n') if l.startswith('VIOLATION') or l.startswith('KNOWN-FINDING') or 'INFRA' in l]
     res['check_rc'] = rc
